@@ -154,6 +154,29 @@ class DefUse(object):
       return None
     return out or None
 
+  def reaching_values(self, nid, name):
+    """Value expressions of the bindings of `name` that reach CFG node nid (reaching definitions
+    through plain assignments); None when a binding of another form, or no binding at all (the
+    entry / a parameter), may reach it."""
+    defs = self.defs.get(name, set())
+    out, seen, todo = [], set(), list(self.cfg.pred[nid])
+    while todo:
+      a = todo.pop()
+      if a in seen:
+        continue
+      seen.add(a)
+      if a in defs:
+        s = self.cfg.nodes[a].stmt
+        if isinstance(s, ast.Assign) and len(s.targets) == 1 and isinstance(s.targets[0], ast.Name) \
+            and s.targets[0].id == name:
+          out.append(s.value)
+          continue
+        return None
+      if a == self.cfg.entry.id:
+        return None
+      todo.extend(self.cfg.pred[a])
+    return out or None
+
   def denotes(self, expr, pred, depth=5):
     """True when `expr` satisfies pred, or is a local name every binding of which is a plain
     assignment of an expression that (recursively) denotes pred. Spelling-independent test for
